@@ -302,12 +302,40 @@ lookup_attr(struct attr_dict *dict, const char *key)
  * @param tmpl    Attribute template.
  * @returns       Attribute data, or @c NULL on allocation failure.
  */
+/**  Find the dictionary that owns an attribute.
+ * @param dict  Attribute dictionary used for the lookup.
+ * @param attr  Attribute found through @p dict.
+ * @returns     @p dict itself, or the fallback dictionary (of a cloned
+ *              dictionary) whose hash table contains @p attr.
+ */
+static struct attr_dict *
+owner_dict(struct attr_dict *dict, const struct attr_data *attr)
+{
+	unsigned hash = attr_hash_index(attr);
+
+	while (dict->fallback) {
+		struct attr_data *d;
+		hlist_for_each_entry(d, &dict->attr.table[hash], list)
+			if (d == attr)
+				return dict;
+		dict = dict->fallback;
+	}
+	return dict;
+}
+
 static struct attr_data *
 alloc_attr(struct attr_dict *dict, struct attr_data *parent,
 	   const struct attr_template *tmpl)
 {
 	struct attr_data *d;
 	unsigned hash;
+
+	/* A child is linked into its parent's directory, so it must live
+	 * (and die) with the dictionary that owns the parent. With a
+	 * cloned dictionary, that may be one of its fallbacks.
+	 */
+	if (parent)
+		dict = owner_dict(dict, parent);
 
 	d = calloc(1, sizeof *d);
 	if (!d)
